@@ -250,6 +250,15 @@ async def session(sc):
         if sc.get('tail') and lost['exc'] == 'none' and len(snaps) >= 2 and not mini.kex_in_progress:
             if sc['tail'] == 'newkeys':
                 mini.send_raw_packet(bytes([M.MSG_NEWKEYS]))
+            elif sc['tail'] == 'kexinit2':         # a second KEXINIT while the exchange it started is still running
+                mini.start_rekey()
+                for _ in range(6):
+                    try:
+                        link.pump()
+                    except (M.MiniSSHError, T.Failure):
+                        break
+                    await asyncio.sleep(0)
+                mini.send_raw_packet(mini.our_kexinit_payload)
             else:                                  # a packet sealed with the send keys of the PREVIOUS exchange
                 tx_dir = 'cs' if role == 'client' else 'sc'
                 neg = snaps[-2]['neg']
@@ -281,7 +290,7 @@ async def session(sc):
                 await asyncio.sleep(0)
             exc = lost['exc']
             errored = not isinstance(exc, str) and exc is not None
-            if sc['tail'] == 'newkeys':
+            if sc['tail'] in ('newkeys', 'kexinit2'):
                 rejected = errored
             else:       # accepted = the stale packet's content reached the application (a stall on a garbage length is not)
                 rejected = b'stale keys' not in echoed()
@@ -291,9 +300,9 @@ async def session(sc):
         ops = S.to_ops(link.tap)
         code = 0
         if res.get('tail', {}).get('errored'):
-            if sc['tail'] == 'newkeys':
-                code = 2
-                last = max((i for i, o in enumerate(ops) if o['act'][0] == 'RecvNewKeys'), default=len(ops) - 1)
+            if sc['tail'] in ('newkeys', 'kexinit2'):
+                code, which = (2, 'RecvNewKeys') if sc['tail'] == 'newkeys' else (1, 'RecvKexInit')
+                last = max((i for i, o in enumerate(ops) if o['act'][0] == which), default=len(ops) - 1)
                 ops = ops[:last + 1]
             else:
                 # a MAC failure is outside the send-side model: compare the trace up to the last normal operation
@@ -328,4 +337,4 @@ def gen(rng, k):
     return {'role': 'client' if k % 2 == 0 else 'server',
             'kex': rng.choice(['curve25519-sha256', 'ecdh-sha2-nistp256', 'diffie-hellman-group14-sha256']) if k % 3 == 0 else 'curve25519-sha256',
             'encs': encs, 'mac': mac, 'strict': k % 4 != 3, 'rekey_bytes': rng.choice([3000, 8192]) if 'async' in plans[k % len(plans)] else 1 << 30,
-            'plan': plans[k % len(plans)], 'tail': [None, 'oldkeys', 'newkeys'][k % 3]}
+            'plan': plans[k % len(plans)], 'tail': [None, 'oldkeys', 'newkeys', 'kexinit2', 'newkeys'][k % 5]}
